@@ -62,7 +62,7 @@ static unsigned long rnd(unsigned long m) { return m ? (unsigned long)(seam::nex
 static json vec_j(const std::vector<mpz_ptr> &v) { json a = json::array(); for (size_t k = 0; k < v.size(); k++) a.push_back(mpz2l(v[k])); return a; }
 static json qual_j(const std::vector<size_t> &q) { json a = json::array(); for (size_t k = 0; k < q.size(); k++) a.push_back(q[k]); return a; }
 
-struct Cfg { std::string proto; size_t n, t, trbc; std::vector<int> role; /* 0 honest, 1 lib-faulty, 2 silent, 3 tampered dealer, 4 crashes after some sends, 5 honest key generation but a damaged share when signing, 6 honest until the refresh, where its zero sharing has a non-zero constant term */ long tamper_from, tamper_to; unsigned long seed; bool rndorder; std::vector<long> cut_after; };
+struct Cfg { std::string proto; size_t n, t, trbc; std::vector<int> role; /* 0 honest, 1 lib-faulty, 2 silent, 3 tampered dealer, 4 crashes after some sends, 5 honest key generation but a damaged share when signing, 6 honest until the refresh, where its zero sharing has a non-zero constant term, 7 honest key generation, then gone (nothing it sends arrives any more, it takes no part in signing) */ long tamper_from, tamper_to; unsigned long seed; bool rndorder; std::vector<long> cut_after; };
 
 static const long GROUPS[][3] = { {2063, 1031, 2}, {46199, 23099, 2}, {46327, 1103, 42}, {23, 11, 2}, {47, 23, 2} };
 
@@ -130,6 +130,8 @@ static void run_exec(std::ofstream &out, const Cfg &c, long gi) {
 					if (ret) {
 						sc.barrier(i, [&]() { Mpz tmp; size_t l = 0; rbc->Deliver(tmp, l, aiounicast::aio_scheduler_roundrobin, 0); });
 						if (c.role[i] == 5) mpz_add_ui(nts.z_i, nts.z_i, 1UL);       // signs with a wrong share
+						if (c.role[i] == 7) { netu.cut[i] = true; netb.cut[i] = true; o["absent"] = true; }
+						else {
 						Mpz m(msgval), cc, ss;
 						hc = json::array();
 						bool sret = nts.Sign(m, cc, ss, aiou, rbc, err, faulty);
@@ -137,6 +139,7 @@ static void run_exec(std::ofstream &out, const Cfg &c, long gi) {
 						hc = json::array();
 						o["ver"] = sret ? nts.Verify(m, cc, ss) : false;
 						o["hv"] = hc;
+						}
 					}
 				}
 			} else if (c.proto == "vss") {
@@ -158,6 +161,8 @@ static void run_exec(std::ofstream &out, const Cfg &c, long gi) {
 				if (ret) {
 					sc.barrier(i, [&]() { Mpz tmp; size_t l = 0; rbc->Deliver(tmp, l, aiounicast::aio_scheduler_roundrobin, 0); });
 					if (c.role[i] == 5) mpz_add_ui(dss.x_i, dss.x_i, 1UL);           // signs with a wrong share
+					if (c.role[i] == 7) { netu.cut[i] = true; netb.cut[i] = true; o["absent"] = true; }
+					else {
 					Mpz m(msgval), rr, ss;
 					bool sret = dss.Sign(n, i, m, rr, ss, aiou, rbc, err, faulty);
 					o["m"] = msgval; o["sret"] = sret; o["r"] = num(rr); o["s"] = num(ss);
@@ -174,6 +179,7 @@ static void run_exec(std::ofstream &out, const Cfg &c, long gi) {
 						Mpz r2, s2, m2(msgval + 1);
 						bool sret2 = dss.Sign(n, i, m2, r2, s2, aiou, rbc, err, faulty);
 						o["m2"] = msgval + 1; o["sret2"] = sret2; o["r2"] = num(r2); o["s2"] = num(s2); o["ver2"] = sret2 ? dss.Verify(m2, r2, s2) : false;
+					}
 					}
 				}
 			}
